@@ -275,7 +275,7 @@ Qed.
 
 Theorem ProgOKe_mono pe : prog_syn_ok pe = true -> ProgOKe teq1 pe -> ProgOKe teq2 pe.
 Proof.
-  intros S [SD NF [Sg [SO [FO PO]]] NA TA NP DJ U1 U2 U3 AC].
+  intros S [SD NF [Sg [SO [FO PO]]] NA TA NP DJ U1 U2 U3 AC PN].
   unfold prog_syn_ok in S.
   apply andb_true_iff in S. destruct S as [S SA]. apply andb_true_iff in S. destruct S as [S SP].
   apply andb_true_iff in S. destruct S as [SE SF].
